@@ -1006,6 +1006,13 @@ def _guard_inline(f, h, is_method):
     the helper body is substituted, every `return <const>` that makes the guard fire becomes T, the others fall through (they must end the helper)"""
     n = 0
     for body in _stmt_lists(f):
+        n += _guard_inline_in(body, f, h, is_method)
+    return n
+
+
+def _guard_inline_in(body, f, h, is_method):
+    n = 0
+    if True:
         i = 0
         while i < len(body):
             st = body[i]
@@ -1013,6 +1020,18 @@ def _guard_inline(f, h, is_method):
             if not (isinstance(st, ast.If) and not st.orelse and len(st.body) == 1 and isinstance(st.body[0], (ast.Return, ast.Continue, ast.Break, ast.Raise))):
                 continue
             t = st.test
+            # `if A and [not] h(..): T`  is  `if A: if [not] h(..): T` - the helper call is the last operand, evaluated only when A holds
+            if isinstance(t, ast.BoolOp) and isinstance(t.op, ast.And) and len(t.values) >= 2:
+                last = t.values[-1]
+                lc = last.operand if isinstance(last, ast.UnaryOp) and isinstance(last.op, ast.Not) else last
+                if _match_call(lc, h, is_method) is not None:
+                    outer_test = t.values[0] if len(t.values) == 2 else ast.BoolOp(op=ast.And(), values=t.values[:-1])
+                    inner = ast.copy_location(ast.If(test=last, body=st.body, orelse=[]), st)
+                    outer = ast.copy_location(ast.If(test=outer_test, body=[inner], orelse=[]), st)
+                    body[i - 1] = outer
+                    # the inner statement is handled when its own list is visited: restart on the new structure
+                    n += _guard_inline_in(outer.body, f, h, is_method)
+                    continue
             neg = isinstance(t, ast.UnaryOp) and isinstance(t.op, ast.Not)
             call = t.operand if neg else t
             binding = _match_call(call, h, is_method)
